@@ -186,7 +186,7 @@ func (ctrler *StakeCtrler) BeginBlock(blockCtx *ctrlertypes.BlockContext) ([]abc
 	//           : At this point, the validators have their power committed at block N (= `height` - 4).
 	issuedReward := uint256.NewInt(0)
 	heightOfPower := blockCtx.Height() - 4
-	if heightOfPower < 0 {
+	if heightOfPower <= 0 {
 		heightOfPower = 1
 	}
 
